@@ -140,8 +140,12 @@ KeyCtx *get_key(const ParamSpec &sp, uint64_t kseed) {
     std::unique_ptr<KeyCtx> kc(new KeyCtx);
     kc->spec = sp; kc->kseed = kseed;
     kc->params = make_params(sp);
+    // key generation must leave the library generator exactly as it found it: whether a key comes from this worker's cache or is
+    // generated now must not influence anything a run draws afterwards (runs are distributed over workers arbitrarily)
+    std::default_random_engine saved = generator;
     lib_seed(mix64(kseed, 0x6b657967656eull));
     kc->sk = new_random_gate_bootstrapping_secret_keyset(kc->params);
+    generator = saved;
     kc->ck = &kc->sk->cloud;
     const TFheGateBootstrappingParameterSet *P = kc->params;
     kc->n = P->in_out_params->n; kc->N = P->tgsw_params->tlwe_params->N; kc->k = P->tgsw_params->tlwe_params->k;
@@ -165,7 +169,8 @@ void KeyCtx::compute_ks_noise() {
     const LweKeySwitchKey *ks = ck->bkFFT->ks;
     int nin = k * N;
     ks_noise.assign((size_t) nin * t * base, 0);
-    for (int i = 0; i < nin; i++)
+    if (ks->t != t || ks->base != base) { ks_noise_ready = true; return; }
+    for (int i = 0; i < nin && i < ks->n; i++)
         for (int j = 0; j < t; j++)
             for (int h = 0; h < base; h++) {
                 uint32_t ph = obs::lwe_phase(&ks->ks[i][j][h], s.data(), n);
